@@ -502,7 +502,11 @@ Fixpoint dec_gen (t : ty) (sh : bool) (mx : N) (v : bytes) (pend : N) {struct t}
   | TBig => of_bytes (read_bytes sh mx v) v pend (fun b => Some (VBig (bytes_to_z b)))
   | TRaw => of_bytes (read_raw sh mx v) v pend (fun b => Some (VRaw b))
   | TSelf t' =>
-      (* RLPDecodeSelf: d.Decode(&inner) = flush, decodeValue; then tryCustom flushes again *)
+      (* RLPDecodeSelf: d.Decode(&inner) = flush, decodeValue; then tryCustom flushes again.
+         tryCustom (commit 8783bcf) turns ErrNilValue into ErrInvalidFormat when d.child is
+         still set; after the flush above and with pre = false no child is open when the
+         inner decodeValue reports nil, so that branch cannot be reached from this pattern
+         (it guards self-decoders that open their own list, e.g. TypedObj: not modelled) *)
       match drain pend v with
       | None => RErr
       | Some v' =>
